@@ -185,7 +185,10 @@ class MAAdapter(Adapter):
             Y = IdentityMatrixArray(length=L, rank=R, space=self.space(sy), types=T)
         else:
             Y = MatrixArray(length=L, rank=R, data=hy.copy(), space=self.space(sy), types=T)
-        return {'X': X, 'Y': Y, 'Z': None, 'ref': Ref(L, R, hx, hy, sx, sy), 'R': R, 'L': L}
+        # bystanders: objects of the same shape that take part in no operation (an identity and a default-constructed array):
+        # whatever is done to X, Y, Z, they keep their contents (no memory shared between objects through the class or module)
+        by = {'identity': IdentityMatrixArray(length=L, rank=R, types=T), 'zeros': MatrixArray(length=L, rank=R, types=T)}
+        return {'X': X, 'Y': Y, 'Z': None, 'ref': Ref(L, R, hx, hy, sx, sy), 'R': R, 'L': L, 'bystanders': by}
 
     def clone(self, w):
         import copy
@@ -413,6 +416,10 @@ class MAAdapter(Adapter):
                 out.append(('PerMatrix', {'object': n, 'err': e, 'what': 'data differs from the operation applied matrix by matrix'}))
             if n != 'Z' and o.space.name != want['obj'][n]['space']:
                 out.append(('OperandSpaceUnchanged', {'object': n, 'expected': want['obj'][n]['space'], 'observed': o.space.name}))
+        bi, bz = w['bystanders']['identity'].data, w['bystanders']['zeros'].data
+        if np.any(bz) or not np.array_equal(bi, np.broadcast_to(np.eye(w['R']), bi.shape)):
+            out.append(('InPlaceTouchesOnlyLhs.bystander', {'bystander': 'zeros' if np.any(bz) else 'identity',
+                                                            'what': 'an object that took part in no operation changed'}))
         for i, n in enumerate(NAMES3):
             for m in NAMES3[i + 1:]:
                 if want['obj'][n]['buf'] == 0 or want['obj'][m]['buf'] == 0 or w[n] is None or w[m] is None:
